@@ -60,6 +60,28 @@ def zoned_sets():
         zs.lines = [("id%02d %s tail" % (i, u.strftime("%Y-%m-%dT%H:%M:%S")), u.replace(tzinfo=datetime.timezone.utc).astimezone(tz)) for i, u in enumerate(stamps)]
         zs.lines.insert(3, ("no date here", None))
         out.append(zs)
+        # the same instants written with a Z or a numeric UTC offset on the line (values that arrive with their zone resolved), and
+        # written on the wall clock of another zone under --from-zone: -z must still move them to its zone before they are compared
+        zo = ZSet(list(zs))
+        zo.args = ["-z", zone]
+        offs = [("Z", 0), ("+02:00", 7200), ("-05:30", -19800), ("+00:00", 0), ("+13:45", 49500)]
+        zo.lines = []
+        for i, u in enumerate(stamps):
+            sfx, sec = offs[i % len(offs)]
+            w = u + datetime.timedelta(seconds=sec)
+            zo.lines.append(("id%02d %s%s tail" % (i, w.strftime("%Y-%m-%dT%H:%M:%S"), sfx), u.replace(tzinfo=datetime.timezone.utc).astimezone(tz)))
+        zo.lines.insert(2, ("nothing here", None))
+        out.append(zo)
+        other = "Asia/Tokyo" if zone != "Asia/Tokyo" else "Europe/Berlin"
+        try:
+            tzo = zoneinfo.ZoneInfo(other)
+        except Exception:
+            continue
+        zf = ZSet(list(zs))
+        zf.args = ["--from-zone", other, "-z", zone]
+        zf.lines = [("id%02d %s tail" % (i, u.replace(tzinfo=datetime.timezone.utc).astimezone(tzo).strftime("%Y-%m-%dT%H:%M:%S")),
+                     u.replace(tzinfo=datetime.timezone.utc).astimezone(tz)) for i, u in enumerate(stamps)]
+        out.append(zf)
     return out
 
 
